@@ -281,6 +281,21 @@ pub mod nix { pub mod unistd {
             ensures r matches Ok(o) ==> (match o { Some(u) => user_db(name@) == Some(u.uid.raw), None => user_db(name@) is None })
         { unimplemented!() }
     }
+    // the numeric side of the databases: whether an id has an entry at all (an id without an entry is still a valid owner for chown)
+    pub uninterp spec fn uid_in_db(uid: u32) -> bool;
+    pub uninterp spec fn gid_in_db(gid: u32) -> bool;
+    impl User {
+        #[verifier::external_body]
+        pub fn from_uid(uid: Uid) -> (r: Result<Option<User>, NixError>)
+            ensures r matches Ok(o) ==> (match o { Some(u) => uid_in_db(uid.raw) && u.uid == uid, None => !uid_in_db(uid.raw) })
+        { unimplemented!() }
+    }
+    impl Group {
+        #[verifier::external_body]
+        pub fn from_gid(gid: Gid) -> (r: Result<Option<Group>, NixError>)
+            ensures r matches Ok(o) ==> (match o { Some(g) => gid_in_db(gid.raw) && g.gid == gid, None => !gid_in_db(gid.raw) })
+        { unimplemented!() }
+    }
     impl Group {
         #[verifier::external_body]
         pub fn from_name(name: &String) -> (r: Result<Option<Group>, NixError>)
